@@ -178,6 +178,8 @@ def rule_child_adopts(ctx, rep):
     c16.rule_child(ctx, rep, "C14.child", callrcu_only=True)
 
 
+META["explanation"] += " " + "Also (rounds 10-11): call_rcu's read-side bracket around helper lookup + enqueue, and the STOPPED handshake of helper teardown (the worker re-queues itself from the last batch)."
+
 RULES = [
     ("C14.child", rule_child_adopts),
     ("C14.lock", rule_lock),
